@@ -133,6 +133,12 @@ def run_case(case):
         g = torch.Generator().manual_seed(case["seed"] + 5)
         rows = 2
         X = torch.rand([rows] + shape, generator=g) if unit else torch.randn([rows] + shape, generator=g) * 1.2
+        if unit and not uncond and case["seed"] % 3 == 0:
+            # only the TRANSFORMED features are restricted to the unit box; identity features may be any real numbers
+            wide = torch.randn([rows] + shape, generator=g) * 3.0
+            for i_ in I_idx:
+                X[:, i_] = wide[:, i_]
+            res.labels.append("identity_features_outside_unit_box")
         ctx = zoo.gen_context(b, case["ctx"], rows, case["seed"])
         call = (lambda Z: m.inverse(Z, ctx)) if case["inverse"] else (lambda Z: m(Z, ctx))
         if cls == "c_umnn" and case["inverse"]:
@@ -159,7 +165,7 @@ def run_case(case):
             base_v = float(X.reshape(rows, -1)[0, j])
             vals = [base_v + d for d in deltas] if not unit else sorted({0.0, 0.13, min(1.0, max(0.0, base_v)), 0.58, 1.0})
             if cls == "c_umnn" and case["inverse"]:
-                vals = [base_v + d for d in (-0.05, 0.0, 0.05)]
+                vals = [base_v + d for d in (-0.05, 0.0, 0.05)] + ([5000.0] if case["seed"] % 2 else [])     # and one far-out value
             for v in vals:
                 X2 = X.clone()
                 X2.reshape(rows, -1)[0, j] = v
